@@ -368,6 +368,10 @@ func runC17(c *fw.Case) {
 	if rng.Intn(3) == 0 {
 		undeclared = strings.ToUpper(declared[0]) + "x"
 	}
+	if rng.Intn(3) == 0 && model.EnumRank(&model.Col{Kind: model.KEnum, EnumKnown: true, EnumVals: declared}, "") < 0 && !withNull {
+		// the undeclared value is the empty string in the very first row
+		undeclared, pos = "", 0
+	}
 	bad[pos] = model.StrP(undeclared)
 	for _, p := range c17Paths {
 		b := bad
@@ -453,6 +457,36 @@ func c17Derived(c *fw.Case, rng *rand.Rand) {
 		case withNull && rng.Intn(3) == 0:
 		case card > 0:
 			cells[p] = model.StrP(vals[rng.Intn(card)])
+		}
+	}
+	if card > 0 && !withNull && rng.Intn(3) == 0 {
+		// empty strings in the first rows (they are a value like any other when nulls are not involved)
+		hasEmpty := false
+		for _, v := range vals {
+			hasEmpty = hasEmpty || v == ""
+		}
+		if hasEmpty || card < 255 {
+			if !hasEmpty {
+				vals = append(vals, "")
+				card++
+			}
+			for i := 0; i < 1+rng.Intn(2) && i < rows; i++ {
+				cells[i] = model.StrP("")
+			}
+			// make sure every value still occurs
+			seen := map[string]bool{}
+			for _, s := range cells {
+				if s != nil {
+					seen[*s] = true
+				}
+			}
+			for _, v := range vals {
+				if !seen[v] {
+					cells = append(cells, model.StrP(v))
+					ids = append(ids, 5000+len(ids))
+					rows++
+				}
+			}
 		}
 	}
 	path := c17Paths[rng.Intn(len(c17Paths))]
